@@ -37,6 +37,7 @@ class RealRuntime(rtm.Runtime):
         self.seq = CTX.Value('i', 0)
         self.q = CTX.SimpleQueue()
         self.seqlines = []
+        self.act = -1
 
     def log(self, **line):
         with self.seq.get_lock():
@@ -78,7 +79,7 @@ class RealRuntime(rtm.Runtime):
             key = (run, nid, kw)
             k = self.attempts.get(key, 0) + 1
             self.attempts[key] = k
-        self.log(e='BodyStart', r=run, n=nid, kw=kw, k=k, t=0)
+        self.log(e='BodyStart', r=run, n=nid, kw=kw, k=k, t=0, act=-1)
         return run, kw, k
 
     def default(self, nid, kwargs):
